@@ -78,7 +78,7 @@ fn pick(k: u8) -> HeaderType {
     }
 }
 
-const VALS: [&str; 3] = ["v0", "v1", "v2"];
+const VALS: [&str; 5] = ["v0", "v1", "v2", "v3", "v4"];
 
 /// N headers with symbolic names from {Host, Cookie, Custom("x-a")} and distinct values (name parsing is `known_name`/`custom_names`): get = first with that name,
 /// get_all = all with that name in insertion order, remove deletes exactly those.
@@ -128,6 +128,38 @@ pub fn table<S: Src, const N: usize>(s: &mut S) {
     assert!(h.len() == N - count, "C02 headers: remove deletes exactly the fields with that name");
     assert!(h.get(qname).is_none(), "C02 headers: removed name is gone");
     s.reached();
+    std::mem::forget(h);
+}
+
+/// After `remove(q)` the fields with another name `o` are untouched: same values, same relative order.
+pub fn table_rm<S: Src, const N: usize>(s: &mut S) {
+    let mut ks = [0u8; N];
+    let mut h = Headers::new();
+    let mut i = 0;
+    while i < N {
+        ks[i] = s.u8() % 3;
+        h.add(pick(ks[i]), VALS[i]);
+        i += 1;
+    }
+    let q = s.u8() % 3;
+    let o = s.u8() % 3;
+    s.assume(o != q);
+    let qn = pick(q);
+    h.remove(&qn);
+    let on = pick(o);
+    let rest = h.get_all(&on);
+    let mut j = 0;
+    let mut i = 0;
+    while i < N {
+        if ks[i] == o {
+            assert!(j < rest.len() && bytes_eq(rest[j].as_bytes(), VALS[i].as_bytes()), "C02 headers: removing one name keeps the other fields and their relative order");
+            j += 1;
+        }
+        i += 1;
+    }
+    assert!(j == rest.len(), "C02 headers: removing one name keeps the other fields and their relative order");
+    s.reached();
+    std::mem::forget(rest);
     std::mem::forget(h);
 }
 
